@@ -161,6 +161,32 @@ gps_bounded.shapes = lambda tier: [dict(edge=True), dict(edge=False)]
 gps_bounded.native_random = 4000
 
 
+@contract("FullLinkControl.gps_info", "okdmr.dmrlib.etsi.layer2.pdu.full_link_control:FullLinkControl.from_bits", ["C03", "C19"],
+          note="GPS Info full LC on ALL 2^25 x 2^24 raw coordinate words: the float scaling (raw * 360/2^25, raw * 180/2^24 and back) is followed exactly - "
+               "the factors are literal dyadic rationals, so every float involved is (-1)^s * m * k / 2^e with a symbolic integer m and m k < 2^53, where IEEE-754 "
+               "multiplication and division are exact (pyvc.values.SDyadic refuses anything else); the same text runs natively on real floats in the cross-check")
+def gps_info(vc, crcbits):
+    from bitarray.util import int2ba
+    from okdmr.dmrlib.etsi.layer2.pdu.full_link_control import FullLinkControl
+    from okdmr.dmrlib.etsi.layer2.elements.flcos import FLCOs
+
+    lon, lat, pe = vc.bits(25, "lon"), vc.bits(24, "lat"), vc.bits(3, "pe")
+    tail = vc.bits(crcbits, "crc")
+    # (feature set id: the standard one; undefined ids fold to their range member, which FullLinkControl.build_parse covers)
+    bits = vc.mkbits([0, 0]) + FLCOs.GPSInfo.as_bits() + vc.mkbits([0] * 8) + vc.mkbits([0, 0, 0, 0]) + pe + lon + lat + tail
+    keep = bits.copy()
+    p = FullLinkControl.from_bits(bits)
+    s1 = p.as_bits()
+    vc.prove("gps_raw_words_survive_decode_then_encode", vc.eq(s1[:72], keep[:72]))
+    q = FullLinkControl.from_bits(s1)
+    vc.prove("gps_coordinates_equal_after_round_trip", vc.and_(q.longitude == p.longitude, q.latitude == p.latitude, same(vc, q.position_error, p.position_error)))
+    vc.prove("serialisation_is_a_fixed_point_of_decode_then_encode", vc.eq(q.as_bits(), s1))
+    vc.prove("frame_argument_unchanged", vc.eq(bits, keep))
+
+
+gps_info.shapes = lambda tier: [dict(crcbits=24), dict(crcbits=5)]
+
+
 @contract("SyncPatterns.total", "okdmr.dmrlib.etsi.layer2.elements.sync_patterns:SyncPatterns.from_bits", ["C03", "C01", "C19"],
           note="the 48-bit SYNC enumeration (too wide for Element.enum_total's table): any 48 bits; the ten defined patterns map to themselves, anything else to EmbeddedSignalling")
 def sync_total(vc):
@@ -181,3 +207,4 @@ def sync_total(vc):
     raw = x.tobytes()
     vc.prove("resolve_bytes_agrees_with_from_bits", SyncPatterns.resolve_bytes(raw) is m)
     vc.prove("frame_argument_unchanged", vc.eq(x, keep))
+gps_info.budget_s = 150
